@@ -288,6 +288,9 @@ def _worker(cfg, inp, out, wd):
             continue
         try:
             fp = Path(wd) / path
+            if fp.is_dir():          # an earlier path used this name as a directory ("a.docx/report"): no file can have it
+                e["rf"] = "n/a"
+                continue
             fp.parent.mkdir(parents=True, exist_ok=True)
             if not fp.exists() and not fp.is_symlink():
                 nfile += 1
